@@ -133,6 +133,51 @@ func (o *Once) Do(f func()) {
 	f()
 }
 
+// Cond mirrors sync.Cond: Wait releases L, blocks until a Signal/Broadcast issued after the call selected this
+// waiter, then re-acquires L.  No spurious wake-ups (sync.Cond has none either).
+type Cond struct {
+	L       Locker
+	waiters []*condWaiter
+}
+
+type condWaiter struct{ signaled bool }
+
+func NewCond(l Locker) *Cond { return &Cond{L: l} }
+
+func (c *Cond) Wait() {
+	s := must()
+	w := &condWaiter{}
+	c.waiters = append(c.waiters, w)
+	c.L.Unlock()
+	s.point(&pendingOp{kind: opCond, cw: w, desc: "cond.wait"})
+	s.cur.op = nil
+	c.L.Lock()
+}
+
+func (c *Cond) Signal() {
+	s := must()
+	if s.aborting {
+		return
+	}
+	if len(c.waiters) > 0 {
+		c.waiters[0].signaled = true
+		c.waiters = c.waiters[1:]
+	}
+	s.release("cond.signal")
+}
+
+func (c *Cond) Broadcast() {
+	s := must()
+	if s.aborting {
+		return
+	}
+	for _, w := range c.waiters {
+		w.signaled = true
+	}
+	c.waiters = nil
+	s.release("cond.broadcast")
+}
+
 // Locker mirrors sync.Locker.
 type Locker interface {
 	Lock()
